@@ -126,8 +126,10 @@ def run(ctx):
                "TLC integers: sizes, nonces, counters < 2^31")
     # ------------------------------------------------------------------ R1
     if c25:
-        r1 = ctx.tlc(sd, "MC_TxCache", cfg("r1.cfg", dict(STRUCT, configs="CfgC25Quick" if q else "CfgC25Thorough",
-                                                        nonces="0, 1" if q else "0, 1, 2")), timeout=3000, coverage=not q)
+        r1 = ctx.tlc(sd, "MC_TxCache", cfg("r1.cfg", dict(STRUCT, configs="CfgC25Quick" if q else "CfgC25Thorough")),
+                     timeout=3000, coverage=not q)
+        if not q:   # three nonces (insertion in the middle, removal with the early stop), one price
+            ctx.tlc(sd, "MC_TxCache", cfg("r1c.cfg", dict(STRUCT, nonces="0, 1, 2", prices="1")), timeout=3000)
         # selections, notifications and sweeps together with eviction (reduced transaction universe)
         r1b = ctx.tlc(sd, "MC_TxCache", cfg("r1b.cfg", dict(SELECT, configs="CfgC26Evict", nonces="0, 2" if q else "0, 1, 3",
                                                           ns="2", bs="1", notify="0" if q else "0, 1")), timeout=3000)
@@ -180,11 +182,11 @@ def run(ctx):
         lap("asynchronous sweep")
     # ------------------------------------------------------------------ R2: TLC-generated histories drive the real cache
     base = STRUCT if c25 else SELECT
-    gen = dict(base, spec="GenSpec", defects='"C25evict1", "C26nonce0", "ClearBytes"', log="LogAppend", depth=(5 if c25 else 6) if q else 8,
+    gen = dict(base, spec="GenSpec", defects='"C25evict1", "C26nonce0", "ClearBytes"', log="LogAppend", depth=(5 if c25 else 6) if q else 7,
                clear="TRUE", rest="VIEW cvars\nACTION_CONSTRAINT EmitEdgeSampled")
     if c25:
         gen.update(configs="CfgC25Quick" if q else "CfgC25Thorough", ns="2", bs="1", notify="0",
-                   nonces="0, 1" if q else "0, 1, 2", samplek=150 if q else 300)
+                   nonces="0, 1", samplek=150 if q else 300)
     else:
         gen.update(configs="CfgC26Evict", prices="1" if q else "1, 2", samplek=60 if q else 100)
     beh = ctx.path("edges.ndjson")
